@@ -130,4 +130,30 @@ FPerson.known_by = KnownBy(FPerson, "known_by")
 FPerson.best_friend_of = BestFriendOf(FPerson, "best_friend_of")
 FPerson.mentor_of = MentorOf(FPerson, "mentor_of")
 
+@dataclass(eq=False)
+class GRegion(Symbol):
+    """Geo model for C15: located_in is transitive and has no inverse; directly_in is a sub-property of it."""
+    name: str = ""
+    located_in: List[GRegion] = field(default_factory=list)
+    directly_in: List[GRegion] = field(default_factory=list)
+
+
+@dataclass(eq=False)
+class GCity(GRegion):
+    """A subclass of the class that declares the managed fields."""
+
+
+@dataclass
+class LocatedIn(PropertyDescriptor, TransitiveProperty):
+    pass
+
+
+@dataclass
+class DirectlyIn(LocatedIn):
+    pass
+
+
+GRegion.located_in = LocatedIn(GRegion, "located_in")
+GRegion.directly_in = DirectlyIn(GRegion, "directly_in")
+
 HIER = {"Base": Base, "Mid": Mid, "Leaf": Leaf, "Other": Other, "DA": DA, "DB1": DB1, "DB2": DB2, "DD": DD}
